@@ -154,7 +154,10 @@ func WithBytes(seq Sequence, p []byte) Sequence {
 }
 
 func insert(p []byte, pos int, q []byte) []byte {
-	return append(p[:pos], append(q, p[pos:]...)...)
+	r := make([]byte, 0, len(p)+len(q))
+	r = append(r, p[:pos]...)
+	r = append(r, q...)
+	return append(r, p[pos:]...)
 }
 
 // Insert a sequence at the given index. For any feature whose location covers
@@ -297,7 +300,8 @@ func Concat(ss ...Sequence) Sequence {
 		return ss[0]
 	default:
 		head, tail := ss[0], ss[1:]
-		ff, p := head.Features(), head.Bytes()
+		ff := head.Features()
+		p := append([]byte(nil), head.Bytes()...)
 
 		for _, seq := range tail {
 			for _, f := range seq.Features() {
@@ -347,8 +351,10 @@ func Rotate(seq Sequence, n int) Sequence {
 	}
 
 	m := Len(seq) - n
-	p := seq.Bytes()
-	p = append(p[m:], p[:m]...)
+	q := seq.Bytes()
+	p := make([]byte, 0, len(q))
+	p = append(p, q[m:]...)
+	p = append(p, q[:m]...)
 
 	seq = WithFeatures(seq, ff)
 	seq = WithBytes(seq, p)
